@@ -28,8 +28,11 @@ def md(m, text, L):
 
 
 def html(m, text):
+    """The meaning of a text: its whitespace-normalised HTML and its table of link reference definitions."""
     with m.HtmlRenderer() as r:
-        return r.render(m.Document(text))
+        d = m.Document(text)
+        defs = [[' '.join(x.split()) for x in (k, v[0], v[1])] for k, v in sorted(d.footnotes.items())]      # a soft break inside a title is whitespace like any other
+        return htmlnorm.ws_normalize(r.render(d)) + ' DEFS ' + json.dumps(defs, sort_keys=True)
 
 
 def line_facts(lines, words, hard, W):
@@ -69,8 +72,8 @@ def reflow_record(m, src, words, hard, W, L, protected=None):
     if lines and lines[-1] == '':
         lines.pop()
     facts, ok = line_facts(lines, words, hard, W) if W >= 0 else ([], True)
-    return {'law': 'reflow', 'L': L, 'y': proj.asc(y), 'z': proj.asc(z), 'htmlX': proj.asc(htmlnorm.ws_normalize(html(m, src))),
-            'htmlY': proj.asc(htmlnorm.ws_normalize(html(m, y))), 'lines': facts, 'wordsOk': 'yes' if ok else 'no',
+    return {'law': 'reflow', 'L': L, 'y': proj.asc(y), 'z': proj.asc(z), 'htmlX': proj.asc(html(m, src)),
+            'htmlY': proj.asc(html(m, y)), 'lines': facts, 'wordsOk': 'yes' if ok else 'no',
             'protectedIn': [], 'protectedOut': []}
 
 
@@ -171,6 +174,13 @@ def run():
     docs = res.printed_json()
     if len(docs) < 5000:
         raise core.MachineryError('Wrap.tla (documents) exported only %d documents' % len(docs))
+    res = core.tlc('Wrap', 'WrapDefs.cfg', workers=1, timeout=3000, heap='2g')      # one link reference definition under every container path
+    ck.add_tlc(res)
+    ddocs = res.printed_json()
+    if len(ddocs) < 500:
+        raise core.MachineryError('Wrap.tla (definitions) exported only %d documents' % len(ddocs))
+    docs += ddocs
+    ck.extra['definition_documents'] = len(ddocs)
     try:
         from . import docgen
         docs += docgen.reflow_documents(ck, m)
